@@ -140,3 +140,55 @@ class AutoIndexManager_find_present_keys_c:
     def inv_2(self, necessary_keys, needed_keys, missing_keys, keys, _i, _seq):
         return (_seq == keys and index_untouched(self) and forall("str", lambda k: k in self.desired)
                 and all(k in self.index._indexes for k in needed_keys))
+
+
+# ---------------------------------------------------------------------------- choice of the evaluation path
+opaque("FilterObj", attrs={"content_type": "str"})
+ghost("filter_index_keys", ["opaque:FilterObj"], "opt[list[list[str]]]")    # None: the filter cannot be evaluated from an index
+
+
+@contract("iface:FilterObj.index_keys", params={"self": "opaque:FilterObj"}, returns="list[list[str]]", assumed=True)
+class FilterObj_index_keys:
+    def raises_NotImplementedError(self):
+        return filter_index_keys(self) is None
+
+    def ensures(self, result):
+        return result == filter_index_keys(self) and all(len(g) > 0 for g in result)
+
+
+@contract("xandikos.store.Store._iter_with_filter_naive",
+          params={"self": "obj:xandikos.store.git.GitStore", "filter": "opaque:FilterObj"},
+          returns="opaque:FilterResult", effects=[["use_naive", "filter"]], assumed=True)
+class Store_iter_with_filter_naive_c:
+    """ASSUMED interface (the object-side evaluation of every member; bounded: index explorer)."""
+
+
+@contract("xandikos.store.Store._iter_with_filter_indexes",
+          params={"self": "obj:xandikos.store.git.GitStore", "filter": "opaque:FilterObj", "keys": "list[str]"},
+          returns="opaque:FilterResult", effects=[["use_indexes", "filter", "keys"]], assumed=True)
+class Store_iter_with_filter_indexes_c:
+    """ASSUMED interface (index-side evaluation; bounded: index explorer).  Its precondition is
+    what makes it meaningful: every key it is given is in the index."""
+
+    def requires(self, keys):
+        return all(k in self.index_manager.index._indexes for k in keys)
+
+
+opaque("FilterResult")
+
+
+@contract("xandikos.store.Store.iter_with_filter",
+          params={"self": "obj:xandikos.store.git.GitStore", "filter": "opaque:FilterObj"}, returns="opaque:FilterResult",
+          modifies=["self.index_manager.desired", "self.index_manager.index._indexes", "self.index_manager.index._in_index"])
+class Store_iter_with_filter_c:
+    """C10: exactly one of the two evaluations runs; the index-side one only with keys that are
+    all in the index (obligation #pre:_iter_with_filter_indexes) and only when the manager found
+    every key group of the filter there; otherwise the object-side one."""
+
+    def requires(self):
+        # (Store.__init__ always installs an index manager)
+        return forall("str", lambda k: k in self.index_manager.desired)
+
+    def ensures(self, filter):
+        return ((effect_names() == ["use_naive"] or effect_names() == ["use_indexes"])
+                and implies(filter_index_keys(filter) is None, effect_names() == ["use_naive"]))
